@@ -204,9 +204,16 @@ package unmarshal
 //@   modifies p.TsNs, p.String, p.Value, p.Types
 //@   ensures bufOK(p)
 //@   ensures one-row: result == nil ==> len(p.TsNs) == old(len(p.TsNs)) + 1
-//@ func (*pushRequestDec).decodeStreamEntry$1
+//@   check row-is-this-entry: result == nil ==> p.TsNs[len(p.TsNs) - 1] == tsNs && p.String[len(p.String) - 1] == str && p.Value[len(p.Value) - 1] == val && p.Types[len(p.Types) - 1] == tp
+//@   check both-bits-mean-undefined: result == nil ==> tp != 3
+// The sample type of an entry is the union of what its keys say - "line" adds the
+// log bit, "value" the metric bit - in whatever order the keys come.
+//@ func (*pushRequestDec).decodeStreamEntry$1 [C03]
 //@   requires tp >= 0 && tp <= 3
 //@   modifies tsNs, str, val, err, tp
+//@   ensures line-adds-the-log-bit: key == "line" ==> tp == old(tp) | 1
+//@   ensures value-adds-the-metric-bit: key == "value" ==> tp == old(tp) | 2
+//@   ensures other-keys-keep-the-type: key != "line" && key != "value" ==> tp == old(tp)
 
 //@ func (*pushRequestDec).decodeStreamValues [C03]
 //@   requires bufOK(p)
